@@ -23,6 +23,9 @@ from common import Check, run_check, run_driver
 THEOREMS = [
     "SleapVerif.C10.identity_preserved_fw_greedy",
     "SleapVerif.C10.identity_preserved_lq_greedy",
+    "SleapVerif.C10.identity_preserved_fw_hungarian",
+    "SleapVerif.C10.identity_preserved_lq_hungarian",
+    "SleapVerif.C10.hungarian_picks_identity",
     "SleapVerif.C10.identity_preserved_fw_hungarian_partial",
     "SleapVerif.C10.identity_preserved_lq_hungarian_partial",
     "SleapVerif.C10.identity_constant",
@@ -318,6 +321,12 @@ def check_hypotheses(chk, case, frames):
             for cmc, r in fr["match"]:
                 want = sorted(ident.items())
                 if case["cfg"]["track_matching_method"] == "hungarian" and isinstance(r, list):
+                    e = check_lsa(cmc, r)      # ExtOk + LsaOptimal: the solver contract of the theorems
+                    if e:
+                        chk.disagree("scipy linear_sum_assignment violates its contract (ExtOk/LsaOptimal): " + e,
+                                     {"case": case, "frame": f}, {"cost": cmc.tolist(), "result": r}, "LsaOptimal")
+                        return False, min_margin
+                    chk.tag("lsa_optimal_validated")
                     if sorted(r) != want:
                         chk.disagree("scipy optimum differs from the identity edges under dominance "
                                      "(LsaPicksIdentity)", {"case": case, "frame": f}, sorted(r), want)
@@ -484,13 +493,14 @@ if __name__ == "__main__":
         build_targets=["SleapVerif.Model.Tracker", "SleapVerif.Lemmas.Tracker", "SleapVerif.Lemmas.TrackerInv",
                        "SleapVerif.Lemmas.TrackerIdentity", "SleapVerif.Lemmas.TrackerOwner",
                        "SleapVerif.Lemmas.TrackerHistory", "SleapVerif.Model.TrackFeatures",
-                       "SleapVerif.Lemmas.TrackFeatures"],
+                       "SleapVerif.Lemmas.TrackFeatures", "SleapVerif.Lemmas.TrackerHungarian"],
         trusted=[
             "Lean 4.33 kernel + Mathlib (ordered fields, WithTop); axioms ⊆ {propext, Classical.choice, Quot.sound}",
             "model SleapVerif.Tracker tied to /repo by the same per-frame correspondence as C09",
             "numpy argsort ascending (ArgsortSorted; validated per recorded call)",
-            "scipy optimum = identity edges under row+column dominance (LsaPicksIdentity; hypothesis of the "
-            "Hungarian theorems, validated per recorded call, not proved)",
+            "scipy linear_sum_assignment contract: one-to-one, in bounds, full size, minimum total cost (ExtOk + "
+            "LsaOptimal; validated by brute force on every recorded call ≤ 6×6); optimum = identity edges under "
+            "dominance is now a theorem (hungarian_picks_identity) and additionally checked per call",
             "the scene-class hypotheses (FW.InClass / LQ.InClass: separation, no stale track, purity-derived "
             "dominance) are measured per frame on the recorded scores and the real queue",
             "get_bbox / get_centroid / compute_iou / compute_euclidean_distance are modelled (Model/TrackFeatures.lean, "
